@@ -209,6 +209,24 @@ theorem countP_ge_split (l : List Rat) (θ : Rat) :
       · have h2 : ¬ θ ≤ a := fun h => h1 (Rat.lt_of_le_of_ne h (fun e => h3 e.symm))
         simp [h1, h2, h3]
 
+/-- whatever `p` counts is counted by `q` or is one of the `p ∧ ¬q` elements -/
+theorem countP_le_countP_add {α : Type} (l : List α) (p q : α → Bool) :
+    l.countP p ≤ l.countP q + l.countP (fun x => p x && !q x) := by
+  induction l with
+  | nil => simp
+  | cons a t ih =>
+    simp only [List.countP_cons]
+    cases p a <;> cases q a <;> simp <;> omega
+
+/-- a sorted permutation of `l` is `sortAsc l`: the result of `ndarray.sort()` does not depend on
+the sorting algorithm -/
+theorem sorted_perm_eq_sortAsc (l l' : List Rat) (hp : l'.Perm l) (hs : l'.Pairwise (· ≤ ·)) :
+    l' = sortAsc l := by
+  apply List.Perm.eq_of_pairwise (le := fun a b => a ≤ b) _ hs (sortAsc_sorted l)
+    (hp.trans (sortAsc_perm l).symm)
+  intro a b _ _ h1 h2
+  exact Rat.le_antisymm h1 h2
+
 /-! ### the quantile rule -/
 
 /-- at most `len - 1 - k'` entries exceed the selected value (`k'` the clamped index) -/
